@@ -35,6 +35,50 @@ theorem shuffling_stable {cfg : Config} {N : Nat} {st st' : State} (hw : EpochWr
   unfold shufflingOf
   rw [ha, hs]
 
+/-- **Rotation = from scratch.** Let `c` be the context of a state `st` of epoch `N` (any point of the epoch: by
+`chain_ctx_invariant` the live context is `ctxOf` of the current state), and `st'` the state right after the epoch
+transition (first slot of epoch `N + 1`, before any block). If the transition wrote only what an epoch may write
+(`EpochWrites`), added no validator (`hreg`: deposits happen in blocks and are covered by `afterDeposit_eq_ctxOf`) and
+moved the sync committees as `process_sync_committee_updates` does (`SyncStep`: at a period boundary next becomes
+current), then what `RotateEpochs` computes — shift two shufflings, compute only the next one, recompute proposers,
+stake and (at a period boundary) sync committees — **is** the context of `st'` from scratch. The equation holds as
+an equation of results: if the from-scratch construction fails (no active validator), so does the rotation, with
+the same error. -/
+theorem rotate_eq_ctxOf {cfg : Config} {N : Nat} {st st' : State} {c : Ctx}
+    (hc : ctxOf cfg st = .ok c)
+    (hN : get_current_epoch cfg st = N) (hN' : get_current_epoch cfg st' = N + 1)
+    (hw : EpochWrites cfg N st st')
+    (hmin : 1 ≤ cfg.MIN_SEED_LOOKAHEAD) (hmax : 1 ≤ cfg.MAX_SEED_LOOKAHEAD)
+    (hvec : cfg.MIN_SEED_LOOKAHEAD + 3 < cfg.EPOCHS_PER_HISTORICAL_VECTOR) (hfar : N + 1 < FAR_FUTURE_EPOCH)
+    (hreg : st'.validators.map (·.pubkey) = st.validators.map (·.pubkey))
+    (hsync : SyncStep cfg N st st') :
+    rotate cfg c st' = ctxOf cfg st' :=
+  rotate_eq_ctxOf_aux hc hN hN'
+    (shuffling_stable hw hmin hmax hvec hfar N (by omega) (by omega))
+    (shuffling_stable hw hmin hmax hvec hfar (N + 1) (by omega) (by omega)) hreg hsync
+
+/-- **Fork upgrades.** An upgrade keeps slot, registry and randao mixes. The upgrade to altair creates the state's
+sync committees, and `UpgradeMaybe` loads them into the context; every later upgrade keeps the state's sync
+committees and leaves the context alone. Either way the updated context is the context of the upgraded state. -/
+theorem afterUpgrade_eq_ctxOf {cfg : Config} {pre post : State} {c : Ctx}
+    (hc : ctxOf cfg pre = .ok c)
+    (hslot : post.slot = pre.slot) (hv : post.validators = pre.validators) (hm : post.randao_mixes = pre.randao_mixes)
+    (hlater : post.fork ≠ Fork.altair →
+      post.current_sync_committee = pre.current_sync_committee ∧ post.next_sync_committee = pre.next_sync_committee) :
+    afterUpgrade c post = ctxOf cfg post := by
+  unfold afterUpgrade
+  by_cases hf : post.fork = Fork.altair
+  · rw [if_pos hf]
+    -- everything but the sync committees is read from fields the upgrade keeps
+    have hpost := ctxOf_congr (cfg := cfg) (st' := post)
+      (st := { pre with current_sync_committee := post.current_sync_committee, next_sync_committee := post.next_sync_committee })
+      hslot hv hm rfl rfl
+    rw [hpost, ctxOf_with_sync hc, hv]
+  · rw [if_neg hf]
+    obtain ⟨e1, e2⟩ := hlater hf
+    rw [ctxOf_congr (cfg := cfg) hslot hv hm e1 e2, hc]
+    rfl
+
 /-- non-vacuity: a state is related to itself (nothing written), for every epoch -/
 example (cfg : Config) (N : Nat) (st : State) : EpochWrites cfg N st st where
   len := Nat.le_refl _
